@@ -2,7 +2,7 @@ import json
 import datetime as dt
 
 from mindsdb_sql.parser.ast.base import ASTNode
-from mindsdb_sql.parser.utils import indent
+from mindsdb_sql.parser.utils import indent, dump_option_value
 
 
 class CreateChatBot(ASTNode):
@@ -37,12 +37,13 @@ class CreateChatBot(ASTNode):
     def get_string(self, *args, **kwargs):
 
         params = self.params.copy()
-        params['model'] = self.model.to_string() if self.model else 'NULL'
+        if self.model:
+            params['model'] = self.model.to_string()
         params['database'] = self.database.to_string()
         if self.agent:
             params['agent'] = self.agent.to_string()
 
-        using_ar = [f'{k}={repr(v)}' for k, v in params.items()]
+        using_ar = [f'{k}={dump_option_value(v)}' for k, v in params.items()]
 
         using_str = ', '.join(using_ar)
 
@@ -66,7 +67,7 @@ class UpdateChatBot(ASTNode):
     def get_string(self, *args, **kwargs):
         params = self.params.copy()
 
-        set_ar = [f'{k}={repr(v)}' for k, v in params.items()]
+        set_ar = [f'{k}={dump_option_value(v)}' for k, v in params.items()]
         set_str = ', '.join(set_ar)
 
         out_str = f'UPDATE CHATBOT {self.name.to_string()} SET {set_str}'
